@@ -113,7 +113,7 @@ PROPS["C18"] = {
     "exhaustive": {"quick": [], "thorough": []},
     "proved_scope": "traceAdd fold = independent tracer (order, run-length compression, saturating depth) for every transfer sequence; counts add up; "
                     "untaken Jcc leaves the trace unchanged; CALL pushes the call stack; indentation bounded",
-    "sampled_only_scope": "trace.rs renderers (invoked after every step, incl. unbalanced returns) and the call-stack pop on RET",
+    "sampled_only_scope": "trace.rs renderers (invoked after every step, incl. unbalanced returns)",
     "assumptions": [],
 }
 
